@@ -3489,6 +3489,28 @@ def run(ctx: Ctx) -> None:
         "integer+nonnegative, integer+positive) against 2, a text-built M, an equally flavoured M and the text-built N, leaf-wise and as a whole "
         "SymPy expression (+ max / min as a whole expression), 3 complete and 2 partial bindings; plus random trees with a flavour per leaf"
     )
+    # ---- rounding / flooring of a true quotient whose denominator changes sign over the positive bindings, always with
+    #      simplify() (seeded C16-r1: ceiling(p/q) rewritten to floor((p + q - 1)/q) before sympy.simplify is right only for
+    #      q > 0; the edge family above divides by constants and plain symbols only, and simplifies one tree in six)
+    S_, n_ = (lambda k: ("s", k)), (lambda c: ("n", c))
+    nums = [S_("N"), ("b", "sub", S_("N"), S_("M")), ("b", "add", S_("N"), n_(1)), ("b", "mul", n_(2), S_("N"))]
+    dens = [("b", "sub", S_("M"), n_(5)), ("b", "sub", n_(7), ("b", "mul", n_(2), S_("M"))), ("b", "sub", S_("M"), S_("N")),
+            ("u", "neg", S_("M")), ("b", "sub", n_(3), S_("M")), ("b", "sub", S_("M"), n_(2))]
+    sign_envs = [{"N": 7, "M": 2}, {"N": 5, "M": 3}, {"N": 4, "M": 7}, {"N": 1, "M": 1}, {"N": 10, "M": 4}, {"N": 3, "M": 8}]
+    nsign = 0
+    for p_ in nums:
+        for q_ in dens:
+            quo = ("b", "div", p_, q_)
+            for tree in (("u", "floor", quo), ("u", "ceil", quo), ("u", "trunc", quo), ("b", "fdiv", p_, q_), ("b", "mod", p_, q_)):
+                if ctx.quick and nsign % 2 != ctx.seed % 2 and tree[1] not in ("ceil", "floor"):
+                    nsign += 1
+                    continue
+                tree_items.append(dict(tree=tree, envs=sign_envs, splits=[({"N": 7}, {"M": 2})], simplify=True, shape=(nsign % 4 == 0), src="signden", light=True))
+                nsign += 1
+    ctx.exhaustive_scopes.append(
+        f"{nsign} sign-changing-denominator trees (quick: floor / ceil all, half of trunc // %): floor ceil trunc of p/q, p // q, p % q for 4 numerators "
+        "and 6 denominators that are negative under some positive bindings (M - 5, 7 - 2*M, M - N, -M, 3 - M, M - 2), 6 bindings, always simplified"
+    )
     nsimp = 0
     # ---- random deep trees
     for i in range(ctx.pick(300, 4000)):
